@@ -119,7 +119,7 @@ def main():
     dst = os.path.join(VERIF, "seeded", name)
     os.makedirs(dst, exist_ok=True)
     for fn in ("patch.diff", "demo.rs", "notes.md"):
-        if os.path.exists(os.path.join(src, fn)):
+        if os.path.exists(os.path.join(src, fn)) and os.path.realpath(src) != os.path.realpath(dst):
             shutil.copy(os.path.join(src, fn), os.path.join(dst, fn))
     old = {}
     if os.path.exists(os.path.join(dst, "meta.json")):
